@@ -368,3 +368,34 @@ def run_property(prop, tier='quick', out=sys.stdout):
     for r in ctx0.rules:
         print('  %-9s %-8s %3d/%-3d %s' % (r.id, r.template, sum(1 for x in r.results if x.ok), len(r.results), r.text[:90]), file=out)
     return 1 if violations else 0
+
+
+def witness_check(doc=False):
+    """type-check (and optionally doctest) the witness crate against the current tree.
+    Returns (ok, detail, seconds)."""
+    import re
+    src = h2_src()
+    wsrc = os.path.join(VERIF, 'witness')
+    wdir = os.path.join(CACHE, 'witness' + os.environ.get('VERIF_SLOT', ''))
+    os.makedirs(os.path.join(wdir, 'src'), exist_ok=True)
+    with open(os.path.join(wsrc, 'Cargo.toml.in')) as fh:
+        toml = fh.read().replace('@H2_SRC@', src)
+    with open(os.path.join(wdir, 'Cargo.toml'), 'w') as fh:
+        fh.write(toml)
+    shutil.copyfile(os.path.join(wsrc, 'src', 'lib.rs'), os.path.join(wdir, 'src', 'lib.rs'))
+    shutil.copyfile(os.path.join(src, 'Cargo.lock'), os.path.join(wdir, 'Cargo.lock'))
+    env = dict(os.environ)
+    env['CARGO_NET_OFFLINE'] = 'true'
+    env['CARGO_TARGET_DIR'] = os.path.join(CACHE, 'target' + os.environ.get('VERIF_SLOT', ''), 'witness')
+    env.pop('RUSTC_WORKSPACE_WRAPPER', None)
+    env['RUSTFLAGS'] = '-Awarnings'
+    t0 = time.time()
+    cmd = ['cargo', '+nightly', 'test', '--doc', '--offline'] if doc else ['cargo', '+nightly', 'check', '--offline']
+    p = subprocess.run(cmd, cwd=wdir, env=env, stdout=subprocess.PIPE, stderr=subprocess.STDOUT, text=True)
+    out = p.stdout
+    if doc:
+        m = re.search(r'test result: (\w+)\. (\d+) passed; (\d+) failed', out)
+        detail = m.group(0) if m else out[-600:]
+        return p.returncode == 0, detail, time.time() - t0
+    errs = re.findall(r'^error(?:\[E\d+\])?: .*$', out, re.M)
+    return p.returncode == 0, ('type-checks' if p.returncode == 0 else '; '.join(errs[:4]) or out[-600:]), time.time() - t0
